@@ -128,6 +128,12 @@ def run(c):
         if i % 3 == 0 or thorough:
             variants.append(("rule-upper", doc_json(d, fold="upper"), url_str(u)))
             variants.append(("url-upper", base, url_str(u, fold="upper")))
+        # the mode's spelling (decision-preserving: the modes are the three words, in any letter case)
+        if i % 7 == 0 or thorough:
+            dm = json.loads(json.dumps(base))
+            dm["mode"] = rnd.choice([dm["mode"].capitalize(), dm["mode"].upper()])
+            dm["defaultAccess"] = rnd.choice([dm["defaultAccess"], dm["defaultAccess"].capitalize()])
+            variants.append(("mode-case", dm, url_str(u)))
         for name, dj, us in variants:
             cmds.append({"kind": "rbac", "doc": dj, "claims": claims_json(cl), "url": us})
             meta.append((i, name))
